@@ -56,6 +56,7 @@ package vnet
 //@   pure
 //@   ensures r != nil && addrStr[ref(r)] == chDst[ref(c)] && addrNet[ref(r)] == chNet[ref(c)]
 //@   ensures typeis(r, *net.UDPAddr) ==> fresh(ptr(r, *net.UDPAddr)) && udpStr(ipStr[base(ptr(r, *net.UDPAddr).IP)], ptr(r, *net.UDPAddr).Port) == chDst[ref(c)]
+//@   ensures chNet[ref(c)] == "udp" ==> typeis(r, *net.UDPAddr) && ptr(r, *net.UDPAddr) != nil
 //@ func (c Chunk) getSourceIP() (r net.IP)
 //@   pure
 //@   ensures ipStr[base(r)] == chSrcIP[ref(c)]
@@ -229,11 +230,15 @@ package vnet
 //@   ensures [added] err == nil ==> (conn.locAddr.Port in m.portMap) && len(m.portMap[conn.locAddr.Port]) >= 1 &&
 //@            m.portMap[conn.locAddr.Port][len(m.portMap[conn.locAddr.Port]) - 1] == conn
 //@   ensures [refused] err != nil ==> err == errAddressAlreadyInUse
+//@   ensures [bound] err == nil ==> conn.bound
+//@   modifies conn.bound
+//@   ghost at return when err == nil: conn.bound = true
 //@   ensures [others] forall p int :: {p in m.portMap} p != conn.locAddr.Port ==> (p in m.portMap) == atlock(p in m.portMap) && m.portMap[p] == atlock(m.portMap[p])
 //@   loop 1 invariant [scan] held(m.mutex) && m.inv() && 0 <= rangeindex + 1 && rangeindex < len(conns) &&
 //@            (forall i mathint :: {conns[i]} 0 <= i && i <= rangeindex ==> !covers(conns[i].locAddr.IP, conn.locAddr.IP))
 
 //@ func (m *udpConnMap) find(addr net.Addr) (c *UDPConn, ok bool)
+//@   modifies lastFind
 //@   requires addr != nil && typeis(addr, *net.UDPAddr) && ptr(addr, *net.UDPAddr) != nil
 //@   ensures [exact] ok == (atlock(ptr(addr, *net.UDPAddr).Port in m.portMap) &&
 //@            (exists i mathint :: 0 <= i && i < atlock(len(m.portMap[ptr(addr, *net.UDPAddr).Port])) &&
@@ -241,13 +246,20 @@ package vnet
 //@   ensures [found] ok ==> c != nil && c.locAddr != nil && c.locAddr.Port == ptr(addr, *net.UDPAddr).Port && covers(c.locAddr.IP, ptr(addr, *net.UDPAddr).IP) &&
 //@            (exists i mathint :: 0 <= i && i < atlock(len(m.portMap[ptr(addr, *net.UDPAddr).Port])) && c == atlock(m.portMap[ptr(addr, *net.UDPAddr).Port][i]))
 //@   ensures [none] !ok ==> c == nil
+//@   ensures [last] lastFind == ref(c)
 //@   ensures [same] forall p int :: {p in m.portMap} (p in m.portMap) == atlock(p in m.portMap) && m.portMap[p] == atlock(m.portMap[p])
+//@   ghost at return: lastFind = ref(c)
 //@   loop 1 invariant [scan] held(m.mutex) && m.inv() && 0 <= rangeindex + 1 && rangeindex < len(conns) &&
 //@            (forall p int :: {p in m.portMap} (p in m.portMap) == atlock(p in m.portMap) && m.portMap[p] == atlock(m.portMap[p])) &&
 //@            (forall i mathint :: {conns[i]} 0 <= i && i <= rangeindex ==> !covers(conns[i].locAddr.IP, ptr(addr, *net.UDPAddr).IP))
 
 // closing a socket frees its address: afterwards no socket registered on that port has the same IP
+//@ ghost global deleteN mathint
+//@ ghost global deleteOk bool
 //@ func (m *udpConnMap) delete(addr net.Addr) (err error)
+//@   modifies deleteN, deleteOk
+//@   ensures [status] deleteN == old(deleteN) + 1 && deleteOk == (err == nil)
+//@   ghost at return: deleteN = deleteN + 1; deleteOk = (err == nil)
 //@   requires addr != nil && typeis(addr, *net.UDPAddr) && ptr(addr, *net.UDPAddr) != nil
 //@   ensures [freed] err == nil && (ptr(addr, *net.UDPAddr).Port in m.portMap) ==> !ipUnspec[base(ptr(addr, *net.UDPAddr).IP)] &&
 //@            (forall i mathint :: {m.portMap[ptr(addr, *net.UDPAddr).Port][i]} 0 <= i && i < len(m.portMap[ptr(addr, *net.UDPAddr).Port]) ==>
@@ -259,6 +271,97 @@ package vnet
 //@            (forall k mathint :: {newConns[k]} 0 <= k && k < len(newConns) ==> newConns[k] != nil && newConns[k].locAddr != nil &&
 //@                  newConns[k].locAddr.Port == ptr(addr, *net.UDPAddr).Port &&
 //@                  ipStr[base(newConns[k].locAddr.IP)] != ipStr[base(ptr(addr, *net.UDPAddr).IP)])
+
+// ---- binding on a host (C13).  hostHas: the configured interfaces of the host carry the IP (hasIPAddr is trusted:
+// ---- its nested scan over interface address lists is outside the contracts written so far).
+//@ uf hostHas(v mathint, ip string) bool
+//@ ghost UDPConn bound bool
+//@ ghost global lastFind mathint
+//@ ghost global handedN mathint
+//@ ghost global handedSock map[mathint]mathint
+//@ ghost global closedN mathint
+//@ ghost global closedAddr map[mathint]mathint
+
+//@ trusted func (v *Net) hasIPAddr(ip net.IP) (r bool)
+//@   pure
+//@   ensures r == hostHas(ref(v), ipStr[base(ip)])
+//@ trusted func (v *Net) getAllIPAddrs(ipv6 bool) (r []net.IP)
+//@   ensures len(r) >= 0 && (forall i mathint :: {r[i]} 0 <= i && i < len(r) ==> hostHas(ref(v), ipStr[base(r[i])]))
+
+// the new socket keeps locAddr: the caller must hand over an address object nobody else can write (F16)
+//@ func newUDPConn(locAddr *net.UDPAddr, remAddr *net.UDPAddr, obs connObserver) (c *UDPConn, err error)
+//@   requires [owned.locAddr] locAddr != nil && exclusive(locAddr)
+//@   ensures (err == nil) == (obs != nil)
+//@   ensures err == nil ==> c != nil && fresh(c) && c.locAddr == locAddr && c.remAddr == remAddr && c.obs == obs && !c.closed && !c.bound
+//@   ensures err != nil ==> c == nil
+
+//@ func (v *Net) allocateLocalAddr(ip net.IP, port int) (err error)
+//@   locked v.mutex
+//@   requires v.udpConns != nil
+//@   modifies lastFind
+//@   ensures [host] err == nil ==> ipUnspec[base(ip)] || hostHas(ref(v), ipStr[base(ip)])
+//@   loop 1 invariant [scan] held(v.mutex) && 0 <= rangeindex + 1 && rangeindex < len(ips)
+
+//@ func (v *Net) assignPort(ip net.IP, start int, end int) (port int, err error)
+//@   locked v.mutex
+//@   requires v.udpConns != nil && 0 <= start && end < 65536
+//@   modifies randLast, lastFind
+//@   ensures [range] err == nil ==> start <= port && port <= end
+//@   ensures [fail] err != nil ==> port == -1 && (err == errEndPortLessThanStart || err == errPortSpaceExhausted)
+//@   ensures [order] (err == errEndPortLessThanStart) == (end < start)
+//@   loop 1 invariant [scan] held(v.mutex) && 0 <= i && i <= space && space == end + 1 - start && 0 <= offset && offset < space
+
+//@ func (v *Net) _dialUDP(network string, locAddr *net.UDPAddr, remAddr *net.UDPAddr) (r transport.UDPConn, err error)
+//@   locked v.mutex
+//@   requires v.udpConns != nil
+//@   modifies randLast, lastFind, v.udpConns.portMap
+//@   ensures [network] network != "udp" && network != "udp4" ==> err != nil
+//@   ensures [conn] err == nil ==> r != nil && typeis(r, *UDPConn) && ptr(r, *UDPConn) != nil && ptr(r, *UDPConn).locAddr != nil
+//@   ensures [registered] err == nil ==> ptr(r, *UDPConn).bound
+//@   ensures [host] err == nil ==> hostHas(ref(v), ipStr[base(ptr(r, *UDPConn).locAddr.IP)])
+//@   ensures [ip] err == nil && locAddr != nil && old(locAddr.IP) != nil ==> ipStr[base(ptr(r, *UDPConn).locAddr.IP)] == ipStr[base(old(locAddr.IP))]
+//@   ensures [anyip] err == nil && (locAddr == nil || old(locAddr.IP) == nil) ==> ptr(r, *UDPConn).locAddr.IP == net.IPv4zero
+//@   ensures [port] err == nil && locAddr != nil && old(locAddr.Port) != 0 ==> ptr(r, *UDPConn).locAddr.Port == old(locAddr.Port)
+//@   ensures [port0] err == nil && (locAddr == nil || old(locAddr.Port) == 0) ==> 5000 <= ptr(r, *UDPConn).locAddr.Port && ptr(r, *UDPConn).locAddr.Port <= 5999
+//@   ensures [frame.locAddr] locAddr != nil ==> locAddr.Port == old(locAddr.Port) && locAddr.IP == old(locAddr.IP) && locAddr.Zone == old(locAddr.Zone)
+//@   ensures [owned] err == nil ==> fresh(ptr(r, *UDPConn).locAddr)
+
+//@ func (v *Net) onClosed(addr net.Addr)
+//@   requires addr != nil && v.udpConns != nil && (addrNet[ref(addr)] == "udp" ==> typeis(addr, *net.UDPAddr) && ptr(addr, *net.UDPAddr) != nil)
+//@   modifies v.udpConns.portMap, deleteN, deleteOk
+//@   ensures [called] (addrNet[ref(addr)] == "udp") == (deleteN == old(deleteN) + 1)
+//@   ensures [notudp] addrNet[ref(addr)] != "udp" ==> deleteN == old(deleteN)
+//@   ensures [freed] addrNet[ref(addr)] == "udp" && deleteOk && (ptr(addr, *net.UDPAddr).Port in v.udpConns.portMap) && !ipUnspec[base(ptr(addr, *net.UDPAddr).IP)] ==>
+//@            (forall i mathint :: {v.udpConns.portMap[ptr(addr, *net.UDPAddr).Port][i]} 0 <= i && i < len(v.udpConns.portMap[ptr(addr, *net.UDPAddr).Port]) ==>
+//@                  ipStr[base(v.udpConns.portMap[ptr(addr, *net.UDPAddr).Port][i].locAddr.IP)] != ipStr[base(ptr(addr, *net.UDPAddr).IP)])
+
+// a closed socket reports its own local address to its observer exactly once
+//@ func (o connObserver) onClosed(addr net.Addr)
+//@   modifies closedN, closedAddr
+//@   ensures closedN == old(closedN) + 1 && closedAddr == upd(old(closedAddr), old(closedN), ref(addr))
+
+//@ monitor UDPConn mu: closed
+//@ invariant (c *UDPConn) open: c.readCh != nil && (!c.closed ==> !closed(c.readCh))
+//@ func (c *UDPConn) onInboundChunk(chunk Chunk)
+//@   modifies handedN, handedSock
+//@   ensures handedN == old(handedN) + 1 && handedSock == upd(old(handedSock), old(handedN), ref(c))
+//@   ghost at return: handedSock[handedN] = ref(c); handedN = handedN + 1
+
+//@ func (c *UDPConn) Close() (err error)
+//@   requires c.obs != nil && c.locAddr != nil
+//@   modifies closedN, closedAddr
+//@   ensures [once] (err == nil) == !atlock(c.closed)
+//@   ensures [again] err != nil ==> err == errAlreadyClosed && closedN == old(closedN)
+//@   ensures [reported] err == nil ==> closedN == old(closedN) + 1 && closedAddr[old(closedN)] == ref(c.locAddr)
+
+// an inbound datagram is handed to the open socket that covers its destination
+//@ func (v *Net) onInboundChunk(c Chunk)
+//@   requires c != nil && v.udpConns != nil
+//@   modifies handedN, handedSock, lastFind
+//@   ensures [udponly] chNet[ref(c)] != "udp" ==> handedN == old(handedN)
+//@   ensures [atmost] handedN == old(handedN) || handedN == old(handedN) + 1
+//@   ensures [covering] handedN == old(handedN) + 1 ==> handedSock[old(handedN)] == lastFind && lastFind != 0
+//@   ensures [deliver] chNet[ref(c)] == "udp" && lastFind != 0 ==> handedN == old(handedN) + 1
 
 // ---- UDP sockets: read deadline (C10)
 //@ pure isTimeout(err error) bool = typeis(err, *net.OpError) && typeis(ptr(err, *net.OpError).Err, *timeoutError)
@@ -358,6 +461,6 @@ package vnet
 
 //@ property C02: networkAddressTranslator.translateOutbound, networkAddressTranslator.findOutboundMapping, networkAddressTranslator.allocUDPPort, networkAddressTranslator.removeMapping
 //@ property C03: networkAddressTranslator.translateInbound, networkAddressTranslator.removeMapping
-//@ property C13: Router.assignIPAddress, udpConnMap.insert, udpConnMap.find, udpConnMap.delete
+//@ property C13: Router.assignIPAddress, udpConnMap.insert, udpConnMap.find, udpConnMap.delete, newUDPConn, UDPConn.onInboundChunk, UDPConn.Close, Net.onInboundChunk, Net.onClosed, Net.allocateLocalAddr, Net.assignPort, Net._dialUDP
 //@ property C10: UDPConn.ReadFrom, UDPConn.Read, UDPConn.SetReadDeadline, UDPConn.SetDeadline
 //@ property C16: NewLossFilter, LossFilter.onInboundChunk
